@@ -503,6 +503,7 @@ def reindex(prog, run):
     f2 = rel(prog.mods[fi2.mod].path)
     d = dict_param(fi2)
     ok = False
+    recognised_other = False
     why = "no store of the re-ordered constraint table"
     for n in ast.walk(fi2.node):
         if isinstance(n, ast.Assign):
@@ -510,12 +511,27 @@ def reindex(prog, run):
                 k = key_of(t, d, set())
                 if k and k[0] == "constraints":
                     v = astq.expr_at(fi2, n, n.value)
-                    why = astq.src(v, 90)
+                    if isinstance(v, ast.Call) and astq.src(v.func) in ("pd.DataFrame", "pandas.DataFrame") and not v.args:
+                        continue                        # the empty default of a missing sheet
+                    if not recognised_other:
+                        why = astq.src(v, 90)
                     if isinstance(v, ast.Subscript) and isinstance(v.slice, ast.Call) and astq.callee_name(prog, fi2, v.slice).endswith("flatten_sns_names"):
                         ok = True
-                    if isinstance(v, ast.Call) and isinstance(v.func, ast.Attribute) and v.func.attr == "reindex" and "flatten_sns_names" in astq.src(v, 400):
-                        ok = True
-    if not ok:
+                    if isinstance(v, ast.Call) and isinstance(v.func, ast.Attribute) and v.func.attr == "reindex":
+                        # the new column labels ARE the sensor names (not merely an expression that mentions them)
+                        lab = astq.kwarg(v, "columns")
+                        if lab is None and v.args and isinstance(astq.kwarg(v, "axis"), ast.Constant) and astq.kwarg(v, "axis").value in (1, "columns"):
+                            lab = v.args[0]
+                        lab = astq.uncoerce(lab) if lab is not None else None
+                        if isinstance(lab, ast.Call) and astq.callee_name(prog, fi2, lab).endswith("flatten_sns_names"):
+                            ok = True
+                        elif lab is not None and "flatten_sns_names" in astq.src(lab, 2000):
+                            own_first = isinstance(lab, ast.BinOp) and isinstance(lab.op, ast.Add) and ".columns" in astq.src(lab.left, 2000)
+                            ok = False if own_first else None
+                            recognised_other = own_first
+                            why = f"`{astq.src(v, 120)}`: the new column order is " + ("the table's OWN columns followed by the sensors it lacks, not the order of the sensor names" if own_first
+                                                                                         else "an expression in the sensor names that this rule does not read")
+    if not ok and not recognised_other:
         # the re-ordering done only when needed: `if <columns differ from the names>: X = X.reindex(columns=names)`.  Skipping it is right
         # exactly when the guard being false means the columns ARE the names, in that order; a guard that only asks whether a name is
         # missing (sets, lengths) is also false for a complete table in another order
